@@ -87,6 +87,17 @@ theorem subst_loop (f : Int → List Str × Bool → Except Panic (ForInStep (Li
         · have : (url == x) = false := by simpa using fun h => hx h.symm
           simp [hx, this]
 
+/-- The four placeholder literals are pairwise different (so the order of the `case` clauses does not
+    matter). -/
+theorem lit_ne :
+    (Go.str "%url" = Go.str "%mimetype") = False ∧ (Go.str "%url" = Go.str "%subtype") = False ∧
+    (Go.str "%url" = Go.str "%supertype") = False ∧ (Go.str "%mimetype" = Go.str "%url") = False ∧
+    (Go.str "%mimetype" = Go.str "%subtype") = False ∧ (Go.str "%mimetype" = Go.str "%supertype") = False ∧
+    (Go.str "%subtype" = Go.str "%url") = False ∧ (Go.str "%subtype" = Go.str "%mimetype") = False ∧
+    (Go.str "%subtype" = Go.str "%supertype") = False ∧ (Go.str "%supertype" = Go.str "%url") = False ∧
+    (Go.str "%supertype" = Go.str "%mimetype") = False ∧ (Go.str "%supertype" = Go.str "%subtype") = False := by
+  refine ⟨?_, ?_, ?_, ?_, ?_, ?_, ?_, ?_, ?_, ?_, ?_, ?_⟩ <;> exact eq_false (by decide)
+
 variable {R : Type}
 
 /-- The state `openExternally` leaves and draws its one frame from. -/
@@ -144,21 +155,19 @@ theorem openExternally_any (prog : Str) (args : List Str) (g : GenHook.State R) 
     simp only [hne, decide_false, Bool.false_eq_true, if_false]
     unfold substE
     simp only [decide_eq_true_eq]
-    by_cases h1 : x = (Go.str "%url")
-    · simp only [if_pos h1, modify_mid, decide_eq_true h1, Bool.or_true]
-    · simp only [if_neg h1, decide_eq_false h1, Bool.or_false]
-      by_cases h2 : x = (Go.str "%mimetype")
-      · simp only [if_pos h2]
-        cases m <;> simp only [Go.deref, modify_mid]
-      · simp only [if_neg h2]
-        by_cases h3 : x = (Go.str "%subtype")
-        · simp only [if_pos h3]
-          cases m <;> simp only [Go.deref, modify_mid]
-        · simp only [if_neg h3]
-          by_cases h4 : x = (Go.str "%supertype")
-          · simp only [if_pos h4]
-            cases m <;> simp only [Go.deref, modify_mid]
-          · simp only [if_neg h4]
+    by_cases h1 : x = Go.str "%url"
+    · subst h1
+      simp only [lit_ne, if_true, if_false, modify_mid, decide_true, Bool.or_true]
+    · by_cases h2 : x = Go.str "%mimetype"
+      · subst h2
+        cases m <;> simp only [lit_ne, if_true, if_false, Go.deref, modify_mid, decide_false, Bool.or_false]
+      · by_cases h3 : x = Go.str "%subtype"
+        · subst h3
+          cases m <;> simp only [lit_ne, if_true, if_false, Go.deref, modify_mid, decide_false, Bool.or_false]
+        · by_cases h4 : x = Go.str "%supertype"
+          · subst h4
+            cases m <;> simp only [lit_ne, if_true, if_false, Go.deref, modify_mid, decide_false, Bool.or_false]
+          · simp only [if_neg h1, if_neg h2, if_neg h3, if_neg h4, decide_eq_false h1, Bool.or_false]
 
 /-- An empty hook: `command[0]` is an index panic, whatever the rest. -/
 theorem openExternally_nil (g : GenHook.State R) (link : Str) (m : Option GenMime.MediaType) :
